@@ -99,6 +99,17 @@ def _gen_cases(tier, seed):
                         continue
                     yield dict(i=i, kind="compose", fmt=fmt, cell=cell, time=time, parts=parts)
                     i += 1
+    for k in range(3):
+        yield dict(i=i, kind="temp-path", fmt="dtr", cell=True, time=True, parts=[1, 2], variant=k)
+        i += 1
+        yield dict(i=i, kind="temp-path", fmt="dcd", cell=True, time=False, parts=[1, 2], variant=k)
+        i += 1
+    # two writers of the same format open at the same time, writes interleaved: no state may be shared between handles
+    for fmt in STREAM:
+        for cell, time in variants(fmt)[:2]:
+            for k, (pa, pb) in enumerate([([1, 2], [2, 1, 1]), ([3], [1, 1]), ([1, 1, 1], [2])]):
+                yield dict(i=i, kind="compose2", fmt=fmt, cell=cell, time=time, parts=pa, parts2=pb)
+                i += 1
     yield dict(i=i, kind="append", fmt="h5", cell=True, time=True, parts=[2, 1], parts2=[1, 2])
     i += 1
     yield dict(i=i, kind="append", fmt="h5", cell=False, time=False, parts=[1], parts2=[3])
@@ -171,8 +182,17 @@ def do_write(fh, fmt, t, cell, time, model0=0):
         fh.write(**native_arrays(t, fmt, cell, time))
 
 
+_KEEPALIVE = []
+
+
 def open_w(path, fmt, top, mode="w"):
     import mdtraj as md
+    # The DTR writer keeps a raw pointer into the path string it was given and opens the directory only at the first
+    # write (known finding below): every path handed to md.open is therefore kept alive here, so that the ordinary
+    # cases do not depend on Python's memory reuse.  The defect itself is probed by the dedicated "dtr-temp-path" cases.
+    _KEEPALIVE.append(path)
+    if len(_KEEPALIVE) > 5000:
+        del _KEEPALIVE[:2500]
     fh = md.open(path, mode)
     if fmt == "h5" and mode == "w":
         fh.topology = top
@@ -230,6 +250,10 @@ def run_case(case, ctx):
             _compose(case, ctx, d)
         elif case["kind"] == "append":
             _append(case, ctx, d)
+        elif case["kind"] == "compose2":
+            _compose2(case, ctx, d)
+        elif case["kind"] == "temp-path":
+            _temp_path(case, ctx, d)
         elif case["kind"] == "ragged":
             _ragged(case, ctx, d)
         else:
@@ -276,6 +300,111 @@ def _compose(case, ctx, d):
                       f"{fmt}: {n} frames written as {parts} (cell={cell}, time={time}) load differently from the one-shot file: {diff}")
     else:
         ctx.ok("compose")
+
+
+TEMP_PATH_CHILD = r"""
+import os, sys, json, gc
+sys.path.insert(0, os.environ['VERIF_ROOT'])
+from vlib import overlay; overlay.install()
+import mdtraj as md
+from vlib.props import c19
+spec = json.loads(sys.argv[1])
+t = c19.traj_for(sum(spec['parts']), spec['cell'])
+# the path exists only as a temporary object during the call (lazily opening writers must not keep a pointer into it)
+fh = md.open(os.path.join(spec['dir'], 'live') + '.' + spec['fmt'], 'w')
+junk = [bytes([65 + (k % 26)]) * (len(spec['dir']) + 9 + (k % 3)) for k in range(2000)]   # reuse freed string storage
+gc.collect()
+pos = 0
+for p in spec['parts']:
+    c19.do_write(fh, spec['fmt'], t[pos:pos+p], spec['cell'], spec['time'], model0=pos)
+    pos += p
+fh.close()
+print('DONE')
+"""
+
+
+def _temp_path(case, ctx, d):
+    """lazily opening writers (dcd, dtr create the file at the first write) must still write to the path they were given,
+    even when the caller's path object is gone by then.  Runs in a child whose cwd is a scratch directory."""
+    import json
+    fmt, cell, time, parts = case["fmt"], case["cell"], case["time"], case["parts"]
+    t = traj_for(sum(parts), cell)
+    one = os.path.join(d, f"one.{fmt}")
+    write_parts(one, fmt, t, [t.n_frames], cell, time)
+    ref = load_back(one, fmt, t.topology)
+    cwd = os.path.join(d, "child-cwd")
+    os.makedirs(cwd)
+    env = dict(os.environ)
+    env["VERIF_ROOT"] = os.path.dirname(os.path.dirname(os.path.dirname(os.path.abspath(__file__))))
+    p = subprocess.run([sys.executable, "-u", "-c", TEMP_PATH_CHILD, json.dumps(dict(fmt=fmt, cell=cell, time=time, parts=parts, dir=d))],
+                       cwd=cwd, env=env, stdout=subprocess.PIPE, stderr=subprocess.PIPE, text=True, timeout=600)
+    target = os.path.join(d, f"live.{fmt}")
+    litter = os.listdir(cwd)
+    if "DONE" not in p.stdout:
+        ctx.violation("temp-path", f"{fmt}:writer-keeps-pointer-into-callers-path-string", f"{fmt}: writing through md.open(<temporary path string>, 'w') failed: {p.stderr[-300:]}")
+        return
+    if not os.path.exists(target):
+        ctx.violation("temp-path", f"{fmt}:writer-keeps-pointer-into-callers-path-string",
+                      f"{fmt}: md.open(<temporary path string>, 'w') + write + close left nothing at the requested path; the working directory "
+                      f"received {[x.encode('utf-8', 'surrogateescape')[:12] for x in litter][:3]}")
+        return
+    got = load_back(target, fmt, t.topology)
+    diff = same(got, ref, fmt, cell, time, ignore_default_time=True)
+    if diff or litter:
+        ctx.violation("temp-path", f"{fmt}:temporary-path:differs-from-one-shot", f"{fmt}: file written through a temporary path string differs: {diff}; litter {len(litter)}")
+    else:
+        ctx.ok("temp-path")
+
+
+def _compose2(case, ctx, d):
+    fmt, cell, time = case["fmt"], case["cell"], case["time"]
+    pa, pb = case["parts"], case["parts2"]
+    ta = traj_for(sum(pa), cell)
+    tb = files.ident_traj(sum(pb), NA, cell="ortho", f0=20)  # different frames (20, 21, ...) in the second file
+    refs = []
+    for nm, t in (("a", ta), ("b", tb)):
+        one = os.path.join(d, f"one_{nm}.{fmt}")
+        try:
+            write_parts(one, fmt, t, [t.n_frames], cell, time)
+        except Exception as e:
+            ctx.skip("compose2", f"{fmt}: one-shot write refused: {type(e).__name__}")
+            return
+        refs.append(load_back(one, fmt, t.topology))
+    pa_, pb_ = list(pa), list(pb)
+    fa = open_w(os.path.join(d, f"inc_a.{fmt}"), fmt, ta.topology)
+    fb = open_w(os.path.join(d, f"inc_b.{fmt}"), fmt, tb.topology)
+    try:
+        ia = ib = 0
+        while pa_ or pb_:
+            if pa_:
+                p = pa_.pop(0)
+                do_write(fa, fmt, ta[ia:ia + p], cell, time, model0=ia)
+                ia += p
+            if pb_:
+                p = pb_.pop(0)
+                do_write(fb, fmt, tb[ib:ib + p], cell, time, model0=ib)
+                ib += p
+    except Exception as e:
+        ctx.violation("compose2", f"{fmt}:two-writers-interleaved:write-fails:{type(e).__name__}", f"{fmt}: interleaved writes through two handles failed: {e!r}")
+        return
+    finally:
+        for fh in (fa, fb):
+            try:
+                fh.close()
+            except Exception:
+                pass
+    for nm, t, ref in (("a", ta, refs[0]), ("b", tb, refs[1])):
+        try:
+            got = load_back(os.path.join(d, f"inc_{nm}.{fmt}"), fmt, t.topology)
+        except Exception as e:
+            ctx.violation("compose2", f"{fmt}:two-writers-interleaved:file-unloadable", f"{fmt}: file {nm} written through one of two interleaved handles does not load: {e!r}")
+            continue
+        diff = same(got, ref, fmt, cell, time, ignore_default_time=True)
+        if diff:
+            ctx.violation("compose2", f"{fmt}:two-writers-interleaved:differs-from-one-shot:{'+'.join(x.split()[0] for x in diff)}",
+                          f"{fmt}: file {nm} written while another {fmt} writer was open differs from its one-shot file: {diff}")
+        else:
+            ctx.ok("compose2")
 
 
 def _append(case, ctx, d):
